@@ -8,7 +8,7 @@ use serde::{Deserialize, Serialize};
 use serde_json::{json, Value};
 use std::collections::{BTreeMap, BTreeSet};
 use std::panic::{catch_unwind, AssertUnwindSafe};
-use std::sync::atomic::{AtomicU64, Ordering};
+use std::sync::atomic::Ordering;
 use std::sync::Mutex;
 use std::time::Instant;
 
@@ -97,7 +97,7 @@ pub struct Budget {
 }
 
 pub trait Engine: Sync {
-    type Case: Serialize + DeserializeOwned + Clone + Send;
+    type Case: Serialize + DeserializeOwned + Clone + Send + Sync;
     fn name(&self) -> &'static str;
     /// Properties this engine can report on.
     fn properties(&self) -> &'static [&'static str];
@@ -150,6 +150,11 @@ pub struct ReplayFile {
     pub tier: String,
     pub detail: String,
     pub case: Value,
+    /// run indices (same seed, engine, property, tier) that must be executed before `case` in the same
+    /// thread for the violation to show: non-empty only when the system under test carries state
+    /// from one application instance to the next (thread-local or process-wide)
+    #[serde(default)]
+    pub history: Vec<u64>,
 }
 
 #[derive(Clone, Debug, Deserialize)]
@@ -176,7 +181,14 @@ pub fn load_known_findings() -> Vec<KnownFinding> {
 }
 
 pub fn silence_panics() {
-    std::panic::set_hook(Box::new(|_| {}));
+    // panics inside simulated runs are caught and classified; a panic of the main thread is a defect of the
+    // harness itself and must be visible (exit code 2, not a silent 101)
+    std::panic::set_hook(Box::new(|info| {
+        if std::thread::current().name() == Some("main") {
+            eprintln!("HARNESS-ERROR: the checker itself panicked: {}", info);
+            std::process::exit(2);
+        }
+    }));
 }
 
 pub fn panic_message(p: &Box<dyn std::any::Any + Send>) -> String {
@@ -193,8 +205,49 @@ fn exec_guarded<E: Engine>(engine: &E, case: &E::Case) -> Result<RunResult, Stri
     catch_unwind(AssertUnwindSafe(|| engine.execute(case))).map_err(|p| panic_message(&p))
 }
 
+/// Executes in a thread of its own: whatever the system under test keeps in thread-local state starts fresh.
+fn exec_isolated<E: Engine>(engine: &E, case: &E::Case) -> Result<RunResult, String> {
+    std::thread::scope(|s| match s.spawn(|| exec_guarded(engine, case)).join() {
+        Ok(r) => r,
+        Err(p) => Err(panic_message(&p)),
+    })
+}
+
+/// Executes, in one fresh thread, the runs `history` of the batch (regenerated from the seed) and then `case`.
+fn exec_with_history<E: Engine>(engine: &E, cfg: &Cfg, history: &[u64], case: &E::Case) -> Result<RunResult, String> {
+    if history.is_empty() {
+        return exec_isolated(engine, case);
+    }
+    let stream = stream_id(engine, cfg);
+    std::thread::scope(|s| {
+        match s
+            .spawn(|| {
+                for idx in history {
+                    let mut rng = Rng::for_run(cfg.seed, stream, *idx);
+                    let _ = catch_unwind(AssertUnwindSafe(|| {
+                        let c = engine.generate(&mut rng, cfg);
+                        engine.execute(&c)
+                    }));
+                }
+                exec_guarded(engine, case)
+            })
+            .join()
+        {
+            Ok(r) => r,
+            Err(p) => Err(panic_message(&p)),
+        }
+    })
+}
+
+fn fails_same_after<E: Engine>(engine: &E, cfg: &Cfg, history: &[u64], case: &E::Case, prop: &str, class: &str) -> Option<Violation> {
+    match exec_with_history(engine, cfg, history, case) {
+        Ok(r) => r.violations.into_iter().find(|v| v.property == prop && v.class == class),
+        Err(_) => None,
+    }
+}
+
 fn fails_same<E: Engine>(engine: &E, case: &E::Case, prop: &str, class: &str) -> Option<Violation> {
-    match exec_guarded(engine, case) {
+    match exec_isolated(engine, case) {
         Ok(r) => r
             .violations
             .into_iter()
@@ -212,6 +265,11 @@ pub fn minimise<E: Engine>(
     class: &str,
     max_execs: u64,
 ) -> (E::Case, u64) {
+    minimise_by(engine, case, max_execs, &|c| fails_same(engine, c, prop, class).is_some())
+}
+
+/// The same with an arbitrary "still fails" predicate (e.g. after a history of earlier runs).
+pub fn minimise_by<E: Engine>(engine: &E, case: E::Case, max_execs: u64, still_fails: &dyn Fn(&E::Case) -> bool) -> (E::Case, u64) {
     let mut cur = case;
     let mut execs = 0u64;
     let started = Instant::now();
@@ -222,7 +280,7 @@ pub fn minimise<E: Engine>(
                 break 'outer;
             }
             execs += 1;
-            if fails_same(engine, &c, prop, class).is_some() {
+            if still_fails(&c) {
                 cur = c;
                 continue 'outer;
             }
@@ -262,7 +320,6 @@ pub fn run_check<E: Engine>(engine: &E, cfg: &Cfg) -> Outcome {
     let total_runs = runs_override.unwrap_or(budget.runs);
     let max_secs: f64 = std::env::var("VERIF_MAX_SECS").ok().and_then(|s| s.parse().ok()).unwrap_or(budget.max_secs);
     let stream = stream_id(engine, cfg);
-    let next = AtomicU64::new(0);
     let records: Mutex<Vec<RunRecord>> = Mutex::new(Vec::new());
     let nworkers = workers();
     println!(
@@ -295,12 +352,17 @@ pub fn run_check<E: Engine>(engine: &E, cfg: &Cfg) -> Outcome {
         });
     }
     std::thread::scope(|scope| {
-        for _ in 0..nworkers {
-            scope.spawn(|| loop {
+        for w in 0..nworkers as u64 {
+            let records = &records;
+            // static assignment: worker w executes runs w, w + W, w + 2W, ... in this order, so that what a
+            // run may have inherited from earlier runs in its thread is a function of the run index
+            let mut round = 0u64;
+            scope.spawn(move || loop {
                 if started.elapsed().as_secs_f64() > max_secs {
                     break;
                 }
-                let idx = next.fetch_add(1, Ordering::SeqCst);
+                let idx = w + round * nworkers as u64;
+                round += 1;
                 if idx >= total_runs {
                     break;
                 }
@@ -397,8 +459,32 @@ pub fn run_check<E: Engine>(engine: &E, cfg: &Cfg) -> Outcome {
         let v0 = r.violations[0].clone();
         let mut rng = Rng::for_run(cfg.seed, stream, r.idx);
         let case = engine.generate(&mut rng, cfg);
-        let (min_case, execs) = minimise(engine, case, &v0.property, &v0.class, 4000);
-        let v = fails_same(engine, &min_case, &v0.property, &v0.class).unwrap_or(v0.clone());
+        // Does the run fail on its own (in a fresh thread), or only after the runs that preceded it in
+        // its worker thread (state carried from one application instance to the next)?
+        let mut history: Vec<u64> = vec![];
+        if engine.replay_attempts() <= 1 && fails_same(engine, &case, &v0.property, &v0.class).is_none() {
+            let w = nworkers as u64;
+            let preds: Vec<u64> = (0..).map(|k| (r.idx % w) + k * w).take_while(|i| *i < r.idx).collect();
+            if fails_same_after(engine, cfg, &preds, &case, &v0.property, &v0.class).is_some() {
+                // shortest suffix (by doubling) of the predecessors that still reproduces
+                let mut k = 1usize;
+                history = preds.clone();
+                while k < preds.len() {
+                    let suffix = &preds[preds.len() - k..];
+                    if fails_same_after(engine, cfg, suffix, &case, &v0.property, &v0.class).is_some() {
+                        history = suffix.to_vec();
+                        break;
+                    }
+                    k *= 2;
+                }
+            }
+        }
+        let (min_case, execs) = if history.is_empty() {
+            minimise(engine, case, &v0.property, &v0.class, 4000)
+        } else {
+            minimise_by(engine, case, 400, &|c| fails_same_after(engine, cfg, &history, c, &v0.property, &v0.class).is_some())
+        };
+        let v = fails_same_after(engine, cfg, &history, &min_case, &v0.property, &v0.class).unwrap_or(v0.clone());
         let hit = known.iter().find(|k| {
             k.status == "known"
                 && k.property == v.property
@@ -425,7 +511,15 @@ pub fn run_check<E: Engine>(engine: &E, cfg: &Cfg) -> Outcome {
             tier: cfg.tier.as_str().to_string(),
             detail: v.detail.clone(),
             case: serde_json::to_value(&min_case).unwrap(),
+            history: history.clone(),
         };
+        if !history.is_empty() {
+            println!(
+                "note: run {} fails only after {} earlier run(s) of its worker thread were executed in the same thread: the system under test carries state from one application instance to the next; the replay file lists those runs",
+                r.idx,
+                history.len()
+            );
+        }
         let dir = format!("{}/replays", verif_dir());
         let _ = std::fs::create_dir_all(&dir);
         let path = format!("{}/{}-{}-{}.json", dir, cfg.property, cfg.seed, r.idx);
@@ -541,13 +635,15 @@ pub fn replay<E: Engine>(engine: &E, rf: &ReplayFile, path: &str) -> i32 {
             return 2;
         }
     };
-    let mut result = exec_guarded(engine, &case);
+    let tier = if rf.tier == "thorough" { Tier::Thorough } else { Tier::Quick };
+    let rcfg = Cfg { property: rf.property.clone(), tier, seed: rf.seed };
+    let mut result = exec_with_history(engine, &rcfg, &rf.history, &case);
     for _ in 1..engine.replay_attempts() {
         let hit = matches!(&result, Ok(r) if r.violations.iter().any(|v| v.property == rf.property && v.class == rf.class));
         if hit {
             break;
         }
-        result = exec_guarded(engine, &case);
+        result = exec_with_history(engine, &rcfg, &rf.history, &case);
     }
     match result {
         Ok(r) => {
@@ -580,8 +676,12 @@ pub fn determinism<E: Engine>(engine: &E, cfg: &Cfg, n: u64) -> Vec<(u64, u64)> 
     for idx in 0..n {
         let mut rng = Rng::for_run(cfg.seed, stream, idx);
         let case = engine.generate(&mut rng, cfg);
-        let r = engine.execute(&case);
-        out.push((idx, r.stats.digest));
+        // (never on the main thread: its panics are reserved for the checker's own defects)
+        let digest = match exec_isolated(engine, &case) {
+            Ok(r) => r.stats.digest,
+            Err(_) => u64::MAX,
+        };
+        out.push((idx, digest));
     }
     out
 }
